@@ -63,6 +63,12 @@ impl SuperVersions {
         self.0.len()
     }
 
+    /// All retained super versions, oldest first.
+    #[cfg(feature = "verif")]
+    pub fn verif_history(&self) -> Vec<SuperVersion> {
+        self.0.iter().cloned().collect()
+    }
+
     pub fn free_list_len(&self) -> usize {
         self.len().saturating_sub(1)
     }
@@ -139,6 +145,9 @@ impl SuperVersions {
 
         persist_version(tree_path, &next_version.version)?;
         self.append_version(next_version);
+
+        #[cfg(feature = "verif")]
+        crate::verif::version_installed(tree_path, self);
 
         visible_seqno.fetch_max(seqno + 1);
 
